@@ -22,6 +22,13 @@ structure Ghost where
   hits0 : Nat := 0                               -- counters at episode start
   miss0 : Nat := 0
   started : Bool := false
+  /-- some pre-state of this episode had an ORPHAN queue slot (injected by the harness: a state only concurrent use
+      produces).  A later store of such a key may legitimately leave two slots in the async engine, so monitors that
+      read the policy order off the history alone are only applied to untainted episodes once the bookkeeping is off. -/
+  tainted : Bool := false
+  /-- the queue as the previous observation left it (`none` before the first one): an orphan that is in a pre-state
+      but was not in the previous post-state was put there by the harness, not by an operation -/
+  lastQueue : Option (List String) := none
 
 def alookup {β : Type} (k : String) : List (String × β) → Option β
   | [] => none
@@ -45,6 +52,14 @@ def nodupB : List String → Bool
 def invB (s : St) : Bool :=
   nodupB (keys s.store) && nodupB s.queue &&
   s.queue.all (fun k => hasKey k s.store) && (keys s.store).all (fun k => s.queue.contains k)
+
+def hasOrphan (s : St) : Bool := s.queue.any (fun k => !hasKey k s.store)
+
+/-- an orphan slot in this pre-state that no operation left there (the harness injected it) -/
+def injectedNow (g : Ghost) (o : Obs) : Bool :=
+  match g.lastQueue with
+  | none => hasOrphan o.pre
+  | some q => o.pre.queue.any (fun k => !hasKey k o.pre.store && !q.contains k)
 
 def ageMs (o : Obs) (s : St) (e : Entry Val) : Nat := ageOf o.cfg s.now e.birth
 
@@ -197,14 +212,35 @@ def monC06fresh (o : Obs) : List String :=
       -- sync ages are read back a few µs..ms after the store; async ages are whole seconds
       if age < 1000 then [] else [s!"entry {k} was just stored but its age is {age} ms (birth time not reset by the store)"]
 
+/-- "an entry younger than T is served unless it was evicted or invalidated": a LOOKUP is neither — it may purge the
+    looked-up key when that one has expired, and nothing that is still alive -/
+def monC06frame (o : Obs) : List String :=
+  match o.op, o.cfg.ttl with
+  | .get k, some t =>
+    o.pre.store.filterMap (fun (x, e) =>
+      if x = k || hasKey x o.post.store then none else
+      let age := ageMs o o.pre e
+      -- async ages are differences of whole seconds (see `monC06core`)
+      let young := match o.cfg.flavour with
+        | .async => decide (age + 2000 ≤ 1000 * t)
+        | _ => decide (age < 1000 * t)
+      if young then some s!"lookup of {k} dropped entry {x} of age {age} ms (ttl {t}): a live entry was neither evicted by a store nor invalidated, yet it is gone"
+      else none)
+  | _, _ => []
+
 def monC06 (_g : Ghost) (o : Obs) : List String :=
-  monC06core o ++ (if o.cfg.ttl.isSome then monC06birth o else []) ++ monC06fresh o
+  monC06core o ++ monC06frame o ++ (if o.cfg.ttl.isSome then monC06birth o else []) ++ monC06fresh o
 
 /-! C07: FIFO evicts the oldest store, LRU the least recently used (entry limit or memory pressure). -/
 def stampOf (stamps : List (String × Nat)) (k : String) : Nat := (alookup k stamps).getD 0
 
 def monC07 (g : Ghost) (o : Obs) : List String :=
-  if !invB o.pre then [] else
+  -- the predicate speaks about the HISTORY only (ghost stamps), not about the implementation's queue: it is applied
+  -- whenever the pre-state's bookkeeping is intact, and ALSO when it is not (duplicate slots a defect left behind)
+  -- as long as no orphan was ever injected in this episode and every stored key's stamp is known
+  let histOnly := !g.tainted && !injectedNow g o && !hasOrphan o.pre && nodupB (keys o.pre.store) &&
+    (keys o.pre.store).all (fun x => (alookup x g.storeStamp).isSome)
+  if !(invB o.pre || histOnly) then [] else
   let pol := o.cfg.policy
   if pol ≠ .fifo && pol ≠ .lru then [] else
   match storedKey o.op with
@@ -288,7 +324,38 @@ def monC08 (g : Ghost) (o : Obs) : List String :=
             let bad := q0.filter (fun x => sc x < sc r * (1.0 - 1e-9))
             if bad.isEmpty then [] else
               [s!"{if pol = .arc then "ARC" else "TLRU"} evicted {r} (score {sc r}) although {bad.map (fun x => s!"{x}:{sc x}")} score lower"]
-      | _ => []
+      | rs =>
+        -- SEVERAL victims in one memory-aware store of the async engine (it evicts BEFORE storing, residents only):
+        -- the documented rule applied repeatedly — each victim is the lowest-scored entry among those STILL cached,
+        -- ranks counted among those still cached.  Greedy replay on the ghost recency order; given up (no verdict) on
+        -- exact or near ties between different keys other than zero scores, where the code's choice is not determined
+        -- by the documented score alone.
+        if !isAsync || pol = .lfu then [] else
+        let rs := rs.filter (fun r => r ≠ k)
+        if rs.length < 2 then [] else
+        let cand0 := q0.filter (fun x => hasKey x o.pre.store)
+        let rec go (fuel : Nat) (cands : List String) (left : List String) : List String :=
+          match fuel with
+          | 0 => []
+          | fuel + 1 =>
+            if left.isEmpty then [] else
+            let sc (x : String) : Float := docScore o (candHits x) ((indexOf? x cands).getD 0 + 1) (candAge x)
+            -- first minimum in recency order (the code's tie-break)
+            let best := cands.foldl (fun (b : Option String) x =>
+              match b with
+              | none => some x
+              | some y => if sc x < sc y then some x else some y) none
+            match best with
+            | none => []
+            | some b =>
+              let near := cands.any (fun x => x ≠ b && sc x ≠ sc b && sc x < sc b * (1.0 + 1e-9) + 1e-12)
+              if near then [] else
+              if left.contains b then go fuel (cands.filter (· ≠ b)) (left.filter (· ≠ b))
+              else
+                let tiedWithVictim := left.any (fun r => sc r == sc b)
+                if tiedWithVictim then [] else
+                [s!"{if pol = .arc then "ARC" else "TLRU"} memory loop evicted {left} while {b} (score {sc b}) was the lowest-scored entry still cached (scores {cands.map (fun x => s!"{x}:{sc x}")})"]
+        go (rs.length + 1) cand0 rs
   let v := match o.op, o.cfg.maxMem with
     | .insert k _, _ => check k
     | .insertMem k val, some M => if val.size > M then [] else check k
@@ -337,6 +404,8 @@ def allMonitors : List (String × (Ghost → Obs → List String)) :=
 /-- ghost update after an observation -/
 def Ghost.advance (g : Ghost) (o : Obs) : Ghost :=
   let g := if g.started then g else { g with started := true, hits0 := o.pre.hitStat, miss0 := o.pre.missStat }
+  let g := if injectedNow g o then { g with tainted := true } else g
+  let g := { g with lastQueue := some o.post.queue }
   let n := g.step + 1
   match o.op, o.out with
   | .get k, .val (some _) =>
